@@ -63,12 +63,38 @@ class World:
         """Capacity (bytes, floor) the airspace admits this interface against: looked up by the *name* of its frequency."""
         return floor_bytes(self.net.airspace.get_frequency_max_capacity_mbps(iface.frequency.name))
 
+    def set_channels(self, aps: List[Any]):
+        """One model channel per hz known to the airspace's registry (or used by an access point), each listing EVERY access point
+        (position = model index): an access point that is re-configured onto another frequency in mid-episode simply becomes
+        disabled / absent on the old channel and enabled / present on the new one."""
+        hzs = {int(f.frequency_hz) for f in self.net.airspace.frequencies.values()} | {int(a.frequency.frequency_hz) for a in aps}
+        self.chans = [(hz, list(aps)) for hz in sorted(hzs)] if aps else []
+
     def chan_of(self, iface) -> Optional[Tuple[int, int]]:
-        for c, (_, ifs) in enumerate(self.chans):
-            for i, w in enumerate(ifs):
-                if w is iface:
-                    return c, i
+        """(channel of the interface's CURRENT frequency, its index)"""
+        hz = int(iface.frequency.frequency_hz) if hasattr(iface, "frequency") else None
+        for c, (h, ifs) in enumerate(self.chans):
+            if h == hz:
+                for i, w in enumerate(ifs):
+                    if w is iface:
+                        return c, i
         return None
+
+    def on_chan(self, c: int, iface) -> bool:
+        return int(iface.frequency.frequency_hz) == self.chans[c][0]
+
+    def member(self, c: int, iface) -> bool:
+        """Is the interface in the list the loop of AirSpace.transmit walks for this hz?"""
+        for k, lst_ in self.net.airspace.wireless_interfaces_by_frequency.items():
+            if int(k) == self.chans[c][0]:
+                return any(x is iface for x in lst_)
+        return False
+
+    def en_bits(self, c: int) -> str:
+        return "".join("1" if (i.enabled and self.on_chan(c, i)) else "0" for i in self.chans[c][1])
+
+    def mem_bits(self, c: int) -> str:
+        return "".join("1" if self.member(c, i) else "0" for i in self.chans[c][1])
 
 
 def _quiet():
@@ -177,12 +203,7 @@ def build(topo: dict) -> World:
             for i in range(nr):
                 if i != j:
                     r.route_table.add_route(address=f"192.168.{i}.0", subnet_mask="255.255.255.0", next_hop_ip_address=f"10.0.0.{i + 1}")
-        by_hz: Dict[int, List[Any]] = {}
-        for j, r in enumerate(rs):
-            ap = r.network_interface[1]
-            by_hz.setdefault(int(ap.frequency.frequency_hz), []).append(ap)
-        for hz in sorted(by_hz):
-            w.chans.append((hz, by_hz[hz]))
+        w.set_channels([r.network_interface[1] for r in rs])
     else:
         raise ValueError(kind)
     if topo.get("ftp") and len(w.hosts) >= 2:
@@ -585,6 +606,28 @@ class Recorder:
             return set_frequency_max_capacity_mbps
         self._patch(AirSpace, "set_frequency_max_capacity_mbps", mk_setcap)
 
+        def members(air):
+            return {(c, i) for c, (_, ifs) in enumerate(rec.w.chans) for i, x in enumerate(ifs) if rec.w.member(c, x)}
+
+        def mk_member(orig):
+            # add_wireless_interface / remove_wireless_interface / clear: which (channel, interface) entered or left a list
+            def wrapped(air, *a, **kw):
+                if air is not rec.w.net.airspace:
+                    return orig(air, *a, **kw)
+                before = members(air)
+                holder = rec.stack[-1]
+                try:
+                    return orig(air, *a, **kw)
+                finally:
+                    after = members(air)
+                    for (c, i) in sorted(before - after):
+                        holder.append({"t": "Q", "k": c, "end": i})
+                    for (c, i) in sorted(after - before):
+                        holder.append({"t": "J", "k": c, "end": i})
+            return wrapped
+        for name in ("add_wireless_interface", "remove_wireless_interface", "clear"):
+            self._patch(AirSpace, name, mk_member)
+
         def mk_wrecv(orig):
             def receive_frame(iface, frame):
                 where = rec.w.chan_of(iface)
@@ -594,7 +637,12 @@ class Recorder:
                     # node does follows in the same list
                     att["rcv"].append(where[1])
                     att.setdefault("rcv_en", []).append(bool(iface.enabled))
-                    rec.stack[-1].append({"t": "R", "k": where[0], "i": att["end"], "j": where[1], "en": bool(iface.enabled)})
+                    mark = {"t": "R", "k": where[0], "i": att["end"], "j": where[1], "en": bool(iface.enabled),
+                            "far": far_query(iface, frame)}   # before the call: receive_frame decrements the TTL in place
+                    rec.stack[-1].append(mark)
+                    r = orig(iface, frame)
+                    mark["acc"] = bool(r)
+                    return r
                 return orig(iface, frame)
             return receive_frame
         self._patch(WirelessAccessPoint, "receive_frame", mk_wrecv)
@@ -630,7 +678,7 @@ def _mac_int(m) -> int:
 def far_query(iface, frame) -> Optional[str]:
     """What C08's acceptance model needs to know to predict the answer of `iface.receive_frame(frame)`: the `far` line of the driver
     (without the leading word). None when the frame has no IP layer or the interface is of a kind C08 does not model."""
-    kind = {"NIC": "h", "RouterInterface": "r", "SwitchPort": "s"}.get(type(iface).__name__)
+    kind = {"NIC": "h", "RouterInterface": "r", "SwitchPort": "s", "WirelessAccessPoint": "w"}.get(type(iface).__name__)
     if kind is None or frame.ip is None:
         return None
     node = iface._connected_node
@@ -681,6 +729,8 @@ def tokens(forest: List[dict]) -> List[str]:
             out += ["F", str(e["k"]), str(e["end"]), "1" if e["v"] else "0"]
         elif e["t"] == "R":
             out += ["R", str(e["k"]), str(e["i"]), str(e["j"])]
+        elif e["t"] in ("J", "Q"):
+            out += [e["t"], str(e["k"]), str(e["end"])]
         else:
             raise ValueError("tick / capacity marker inside an action")
     return out
@@ -728,13 +778,15 @@ def depth(forest: List[dict]) -> int:
     return d
 
 
-def dump(w: World) -> str:
+def dump(w: World, caps=None) -> str:
+    """`caps`: print these per-interface capacities instead of the live ones (the capacities the model has been told so far)"""
     b = lambda x: "1" if x else "0"  # noqa: E731
     ls = [f"L:{floor_bytes(l.bandwidth)}:{exact_bytes(l.current_load)}:{b(l.endpoint_a.enabled)}{b(l.endpoint_b.enabled)}" for l in w.links]
     cs = []
-    for hz, ifs in w.chans:
+    for c, (hz, ifs) in enumerate(w.chans):
         load = exact_bytes(_air_load_of(w.net.airspace, hz))
-        cs.append(f"C:{','.join(str(w.icap(i)) for i in ifs)}:{load}:{''.join(b(i.enabled) for i in ifs)}")
+        cs.append(f"C:{','.join(str(x) for x in (caps[c] if caps is not None else [w.icap(i) for i in ifs]))}:{load}:"
+                  f"{w.en_bits(c)}:{w.mem_bits(c)}")
     return " ".join(ls) + " / " + " ".join(cs)
 
 
@@ -785,6 +837,29 @@ def apply_op(w: World, op: list, t: List[int]):
         _wbfill(w, op[1], op[2], op[3], op[4], op[5])
     elif kind == "c2":
         _c2(w, op[1])
+    elif kind == "wleave":
+        # remove_wireless_interface called on its own (public API): the access point stays enabled but leaves the frequency's list
+        w.net.airspace.remove_wireless_interface(w.ifaces[f"{op[1]}:1"])
+    elif kind == "wjoin":
+        w.net.airspace.add_wireless_interface(w.ifaces[f"{op[1]}:1"])
+    elif kind == "wclear":
+        w.net.airspace.clear()
+    elif kind == "wflap":
+        # the wireless twin of F-40: EVERY access point is disabled (each frequency's list becomes empty) and the listed ones
+        # are enabled again, all inside one tick
+        aps = [x for _, ifs in w.chans[:1] for x in ifs]
+        for x in aps:
+            x.disable()
+        for j in op[1]:
+            if j < len(aps):
+                aps[j].enable()
+    elif kind == "whop":
+        # an access point is re-configured onto another frequency in mid-episode (disable, new frequency, enable)
+        r = w.nodes[op[1]]
+        ap = w.ifaces[f"{op[1]}:1"]
+        if op[2] in w.net.airspace.frequencies:
+            from primaite.simulator.network.airspace import AirSpaceFrequency
+            r.configure_wireless_access_point(str(ap.ip_address), str(ap.subnet_mask), frequency=AirSpaceFrequency._registry[op[2]])
     else:
         raise ValueError(f"unknown op {op}")
 
@@ -976,14 +1051,13 @@ def build_scenario(sc: dict) -> World:
     w.net = env.game.simulation.network
     w.links = list(w.net.links.values())
     w.nodes = dict(w.net.nodes) if isinstance(w.net.nodes, dict) else {}
-    by_hz: Dict[int, List[Any]] = {}
+    aps = []
     for node in w.net.nodes.values():
         for ni in node.network_interfaces.values():
             if hasattr(ni, "airspace") and hasattr(ni, "frequency") and type(ni).__name__ == "WirelessAccessPoint" \
                     and type(ni).__module__.endswith("wireless_router"):
-                by_hz.setdefault(int(ni.frequency.frequency_hz), []).append(ni)
-    for hz in sorted(by_hz):
-        w.chans.append((hz, by_hz[hz]))
+                aps.append(ni)
+    w.set_channels(aps)
     return w
 
 
@@ -1002,16 +1076,20 @@ def run_impl(case: dict, inventory=None) -> dict:
     lines: List[str] = []
     for l in w.links:
         lines.append(f"link {floor_bytes(l.bandwidth)} {int(bool(l.endpoint_a.enabled))} {int(bool(l.endpoint_b.enabled))}")
-    for hz, ifs in w.chans:
-        lines.append(f"chan {','.join(str(w.icap(i)) for i in ifs)} " + " ".join(str(int(bool(i.enabled))) for i in ifs))
+    for c, (hz, ifs) in enumerate(w.chans):
+        lines.append(f"chan {','.join(str(w.icap(i)) for i in ifs)} en {w.en_bits(c)} mem {w.mem_bits(c)}")
     impl = ["ok"] * len(lines)
     forests: List[List[dict]] = []
     oracle: List[dict] = []
     lcap, ccap = _caps(w)            # capacities in force now
     lpeak = list(lcap)               # largest bandwidth in force since the tick began, per link
-    cpeak = [max(c) if c else 0 for c in ccap]
+    def oncaps(c: int) -> List[int]:
+        """capacities of the access points that are on channel c now (an access point parked on another hz does not count)"""
+        return [ccap[c][i] for i, x in enumerate(w.chans[c][1]) if w.on_chan(c, x)]
+
+    cpeak = [max(oncaps(c), default=0) for c in range(len(ccap))]
     lvals = [{b} for b in lcap]      # every bandwidth / capacity value in force since the tick began
-    cvals = [set(c) for c in ccap]
+    cvals = [set(oncaps(c)) for c in range(len(ccap))]
     carried = {}      # (medium, k) -> bytes carried since the last tick boundary
     under = {}        # (medium, k, C) -> bytes carried since the last tick boundary by frames admitted against a capacity <= C
     t = [1]
@@ -1030,7 +1108,7 @@ def run_impl(case: dict, inventory=None) -> dict:
         impl.append(" ".join(recs(seg)) + " | " + after)
         # the far interface's answer against C08's acceptance model, once per distinct question
         for e in walk(seg):
-            if e["t"] == "S" and e["tx"] and e["acc"] is not None:
+            if (e["t"] == "S" and e["tx"] and e["acc"] is not None) or (e["t"] == "R" and e.get("acc") is not None):
                 if e.get("far") is None:
                     bump("far-answer-not-modelled")
                 elif (e["far"], e["acc"]) not in far_seen:
@@ -1114,19 +1192,52 @@ def run_impl(case: dict, inventory=None) -> dict:
             load = exact_bytes(_air_load_of(w.net.airspace, hz))
             if load > cpeak[c]:
                 oracle.append({"kind": "load-exceeds-bandwidth", "op": oi, "medium": "wireless", "k": hz, "at": at})
-            elif ccap[c] and load > min(ccap[c]):
+            elif oncaps(c) and load > min(oncaps(c)):
                 # not a violation (see C18_air_two_names_counterexample): the hz is above the capacity of its smaller name
                 bump("hz-load-above-the-smaller-of-two-name-capacities")
+
+    prev_load = {}
+
+    def monotone(oi: int):
+        """Inside a tick no load may go down from one operation to the next (a refused frame's reservation is released inside the
+        send that made it; nothing else lowers a load but the tick): the counter-side view of F-40 and of its wireless twin."""
+        cur = {("wired", k): exact_bytes(l.current_load) for k, l in enumerate(w.links)}
+        cur.update({("wireless", c): exact_bytes(_air_load_of(w.net.airspace, hz)) for c, (hz, _) in enumerate(w.chans)})
+        for key, v in cur.items():
+            if key in prev_load and v < prev_load[key]:
+                oracle.append({"kind": "load-decreased-within-a-tick", "op": oi, "medium": key[0], "k": key[1], "from": prev_load[key], "to": v})
+        prev_load.clear()
+        prev_load.update(cur)
+
+    def sync_caps():
+        """An access point re-configured onto another frequency name is admitted against that name's capacity from now on: the
+        per-interface capacities of the model follow (top-level `setcap` steps, like any other capacity change)."""
+        changed = False
+        for c, (_, ifs) in enumerate(w.chans):
+            for i, x in enumerate(ifs):
+                v = w.icap(x)
+                if v != ccap[c][i]:
+                    bump("capacity-change:wireless:interface-moved-to-another-frequency-name")
+                    ccap[c][i] = v
+                    lines.append(f"setcap {c} {i} {v}")
+                    impl.append("ok")
+                    changed = True
+            cpeak[c] = max([cpeak[c]] + oncaps(c))
+            cvals[c] |= set(oncaps(c))
+        if changed:
+            lines.append("dump")
+            impl.append(dump(w))
 
     def new_tick():
         carried.clear()
         under.clear()
+        prev_load.clear()
         for k in range(len(lcap)):
             lpeak[k] = lcap[k]
             lvals[k] = {lcap[k]}
         for c in range(len(ccap)):
-            cpeak[c] = max(ccap[c]) if ccap[c] else 0
-            cvals[c] = set(ccap[c])
+            cpeak[c] = max(oncaps(c), default=0)
+            cvals[c] = set(oncaps(c))
 
     with Recorder(w, inventory) as rec:
         w.rec = rec
@@ -1190,12 +1301,14 @@ def run_impl(case: dict, inventory=None) -> dict:
                                 ccap[c][i] = v
                                 lines.append(f"setcap {c} {i} {v}")
                                 impl.append("ok")
-                        cpeak[c] = max(cpeak[c], max(ccap[c])) if ccap[c] else cpeak[c]
-                        cvals[c] |= set(ccap[c])
+                        cpeak[c] = max([cpeak[c]] + oncaps(c))
+                        cvals[c] |= set(oncaps(c))
                     lines.append("dump")
                     impl.append(e["after"])
             if seg or op[0] not in ("tick", "step", "setbw", "setcap"):
-                segment(oi, seg, dump(w))
+                segment(oi, seg, dump(w, ccap))
+            sync_caps()
+            monotone(oi)
         else:
             lines.append("dump")
             impl.append(dump(w))
@@ -1273,6 +1386,7 @@ def gen_case(rng: Rng, max_ops: int = 14) -> dict:
         # a C2 server and a beacon: the second piece of real software that executes requests it receives over the network
         a0 = rng.choice(hosts)
         topo["c2"] = [a0, rng.choice([h for h in hosts if h != a0])]
+    membership = rng.chance(1, 2)       # (wireless) access points leave / join the airspace, hop frequency, all inside ticks
     capchange = rng.chance(1, 4)        # this case reassigns bandwidths / frequency capacities in mid-episode
     boundary = rng.chance(1, 4)         # this case sets a capacity to the exact sum of k frames (or one ulp beside it)
     ops: List[list] = []
@@ -1315,6 +1429,29 @@ def gen_case(rng: Rng, max_ops: int = 14) -> dict:
                             rng.choice(["exact", "exact", "below", "above"])])
         elif topo.get("tripwire") and r >= 58 and r < 66:
             ops += trip_ops(rng, topo, hosts)
+        elif kind == "wireless" and membership and r >= 66 and r < 80:
+            q = rng.below(10)
+            nr = len(hosts)
+            if q < 4:
+                # empty every frequency and repopulate it inside the tick (all access points back, or only some), half of the
+                # time with the channel partly filled just before
+                if rng.chance(1, 2):
+                    ops.append(["wburst", "wr%d" % rng.below(nr), rng.choice([0, 100, 1000]), rng.choice([1, 2, 3])])
+                ops.append(["wflap", rng.choice([list(range(nr)), list(range(nr)), [rng.below(nr)], []])])
+            elif q < 6:
+                j = rng.below(nr)
+                if rng.chance(1, 3):
+                    # a disabled access point put back into the frequency's list by hand: in the list, but must stay deaf
+                    ops.append(["nic", "wr%d:1" % j, "disable"])
+                    ops.append(["wjoin", "wr%d" % j])
+                else:
+                    ops.append([rng.choice(["wleave", "wleave", "wjoin"]), "wr%d" % j])
+            elif q < 7:
+                ops.append(["wclear"])
+            else:
+                ops.append(["whop", "wr%d" % rng.below(nr), rng.choice([f for f, _ in topo["cap"]])])
+            if rng.chance(2, 3):    # traffic right after it, in the same tick
+                ops.append(rng.choice([["ping", a, b, 1], ["wburst", "wr%d" % rng.below(nr), rng.choice([0, 100, 1000]), rng.choice([1, 2, 3])]]))
         elif r < 30:
             ops.append(["ping", a, b, rng.choice([1, 1, 2, 4])])
         elif r < 38:
